@@ -98,6 +98,20 @@ def db_part(res, tier, rnd, count):
                     metas.append((hist, i + 1, f"has={int(has)} surv={surv}"))
                     if db.equivdb[root] != root:
                         res.dist["db:query with root label != its representative"] += 1
+                    # the trees the database's own finders return, against the recorded rules up to equivalence
+                    if has and i == len(evs) - 1:
+                        st = random.getstate()
+                        random.seed(rnd.random())
+                        try:
+                            nodes = [db._get_iterative_node()] if iterative else [db._get_smallish_node(0.0), db._get_smallest_node(0.0)]
+                            for node in nodes:
+                                flat = ";".join(
+                                    f"{min(db.equivdb.equivalent_set(v.label))}:{','.join(map(str, sorted(min(db.equivdb.equivalent_set(c.label)) for c in v.children)))}"
+                                    for v in node.nodes())
+                                lines.append(f"dbt {n} {fmt_evs(evs)} {flat}")
+                                metas.append((hist, i + 1, "tree-ok"))
+                        finally:
+                            random.setstate(st)
         except Exception as exc:
             res.fail("ruledb-raises", hist, repr(exc))
     out = common.run_driver("C05", "\n".join(lines) + "\n")
@@ -107,6 +121,12 @@ def db_part(res, tier, rnd, count):
         res.traces += 1
         if "has=1" in ref:
             res.dist["db:specification exists"] += 1
+        if py == "tree-ok":
+            res.dist["db:trees through the database's finders"] += 1
+            if ref != "tree-ok" and id(hist) not in reported:
+                reported.add(id(hist))
+                res.fail("tree-from-database-uses-unrecorded-rule", hist, {"checker": ref})
+            continue
         if py != ref and id(hist) not in reported:
             reported.add(id(hist))
             sig = "has_specification-wrong" if py.split()[0] != ref.split()[0] else "verified-set-wrong"
